@@ -893,6 +893,36 @@ static std::vector<Finding> run_scenario(const Scenario &sc, Ctx &cx, const std:
       ares_destroy(ch3);
     }
   }
+  // ---- (b') a duplicate is a channel of its own: with the legacy socket functions installed on the source (their
+  //      trampolines carry a channel pointer), the copy must keep working after the source is destroyed
+  if (fam == "servers" || (cx.ncases % 16) == 0) {
+    static struct ares_socket_functions legacy;
+    legacy.asocket   = [](int, int, int, void *) -> ares_socket_t {
+      errno = EMFILE;
+      return ARES_SOCKET_BAD;
+    };
+    legacy.aclose    = [](ares_socket_t, void *) -> int { return 0; };
+    legacy.aconnect  = [](ares_socket_t, const struct sockaddr *, ares_socklen_t, void *) -> int { return -1; };
+    legacy.arecvfrom = [](ares_socket_t, void *, size_t, int, struct sockaddr *, ares_socklen_t *, void *) -> ares_ssize_t { return -1; };
+    legacy.asendv    = [](ares_socket_t, const struct iovec *, int, void *) -> ares_ssize_t { return -1; };
+    ares_channel_t *a = nullptr, *b = nullptr;
+    if (ares_init_options(&a, u.options_null ? nullptr : &u.o, u.mask) == ARES_SUCCESS) {
+      ares_set_socket_functions(a, &legacy, nullptr);
+      if (ares_dup(&b, a) == ARES_SUCCESS) {
+        ares_destroy(a);
+        a            = nullptr;
+        static int n = 0;
+        n            = 0;
+        ares_query(b, "dup.example.com", 1, 1, [](void *, int, int, unsigned char *, int) { n++; }, nullptr);
+        ares_cancel(b);
+        if (n != 1) note("C16:dup:" + fam + ":copy-not-usable", "a query on the duplicate (source already destroyed) completed " + std::to_string(n) + " times");
+        cx.rep.witness("dup_outlives_source");
+        ares_destroy(b);
+      }
+      if (a) ares_destroy(a);
+    }
+    cx.rep.executions++;
+  }
   // ---- (c) csv -> set -> csv on a fresh channel with the same options
   {
     ares_channel_t *ch4 = nullptr;
